@@ -263,6 +263,13 @@ func (fx *Fx) ensureVar(st *State, v types.Object) {
 		if rf := fx.c.refTypeFact(name, v.Type()); rf != "" {
 			st.assume(rf)
 		}
+		// a captured variable's referent existed before this activation started
+		switch types.Unalias(v.Type()).Underlying().(type) {
+		case *types.Pointer, *types.Chan, *types.Map:
+			st.assume(fmt.Sprintf("(<= %s %s)", name, fx.entryAlloc()))
+		case *types.Slice:
+			st.assume(fmt.Sprintf("(<= (s_base %s) %s)", name, fx.entryAlloc()))
+		}
 	}
 	st.vars[v] = name
 	fx.c.inputs = append(fx.c.inputs, ModelVar{Name: v.Name(), Term: name})
